@@ -92,7 +92,7 @@ Proof. exact exception_exit_same. Qed.
 
 (* ---- non-vacuity ---- *)
 Definition sink : gname := ("verif_sink", "record").
-Definition od : gname := ("collections", "OrderedDict").
+Definition od : gname := ("fractions", "Fraction").
 
 Example C12_nonvacuous_nesting :
   let body := [HEnter; HProbe PLoad (mkP true [sink]); HEnter; HLeaveExc; HLeave; HArm] in
